@@ -43,7 +43,7 @@ def ops_fn(S):
     ops = []
     for name, mode, a, b in S.extras_stream():
         ops.append(f"structure {name} " + json.dumps(b, ensure_ascii=False, separators=(",", ":")))
-        if mode == "min":
+        if mode in ("min", "max"):
             ops.append(f"structure {name} " + json.dumps(a, ensure_ascii=False, separators=(",", ":")))
     return ops
 
